@@ -32,7 +32,10 @@ RULE = (
     "rechunk stages; mostly unoptimised so that operations communicate through storage) x executors {single-threaded, "
     "threads, processes} x compute_arrays_in_parallel {off,on} x batch_size {None,1,3} x max_workers {1,2,4,16} x seeded "
     "write latency (0/1/5/20 ms per chunk key). An evaluation = one run; non-trivial = completed run in which at least "
-    "one produced array was read back by a later task; distinct = distinct interleaving (hash of the store event order)"
+    "one produced array was read back by a later task; distinct = distinct interleaving (hash of the store event order). "
+    "Plus, per shard, 'wide' plans: chains of 2-3 unfused elementwise operations over 1050-1500 one-element chunks on the "
+    "threads executor (8/16/32 workers, batch_size None/1200/1500) with a few slow writes (50/200 ms), so that more tasks "
+    "are in flight at once than any bound a scheduler might put on the futures it tracks"
 )
 ASSUMPTIONS = [
     "timestamps come from time.monotonic() (CLOCK_MONOTONIC), comparable across worker processes on Linux",
@@ -47,7 +50,7 @@ SITE = os.path.join(os.path.dirname(os.path.dirname(os.path.abspath(__file__))),
 def shards(tier, seed):
     return [
         {"n": PER_SHARD[tier], "maxdim": 8 if tier == "quick" else 11, "depth": 5 if tier == "quick" else 7,
-         "procs": 1 if tier == "quick" else 10, "watchdog_s": TIMEOUT[tier] - 30}
+         "procs": 1 if tier == "quick" else 10, "wide": 1 if tier == "quick" else 2, "watchdog_s": TIMEOUT[tier] - 30}
         for _ in range(NSHARDS[tier])
     ]
 
@@ -201,7 +204,7 @@ def analyse(events, res, facts):
     return out, mx, order, len(consumed)
 
 
-def one_run(recipe, cfg, workdir, seed, res):
+def one_run(recipe, cfg, workdir, seed, res, max_tasks=150, delays=None):
     import cubed
 
     storetrace.install()
@@ -216,7 +219,7 @@ def one_run(recipe, cfg, workdir, seed, res):
         fp = cubed.plan(*outs, optimize_graph=cfg["optimize"])
     except Exception:
         return None
-    if fp.num_tasks > 150:
+    if fp.num_tasks > max_tasks:
         return None
     inner = runner.make_executor(cfg["executor"], cfg.get("executor_opts"))
     ex = advexec.Wrap(inner)
@@ -231,7 +234,7 @@ def one_run(recipe, cfg, workdir, seed, res):
         for k, v in newenv.items():
             saved[k] = os.environ.get(k)
             os.environ[k] = v
-    storetrace.TRACE.start(injector=storetrace.make_delay_injector(seed), digest=False)
+    storetrace.TRACE.start(injector=storetrace.make_delay_injector(seed, **({"choices": delays} if delays else {})), digest=False)
     exc = None
     try:
         cubed.compute(*outs, executor=ex, optimize_graph=cfg["optimize"], **cfg.get("compute_kw", {}))
@@ -253,9 +256,29 @@ def one_run(recipe, cfg, workdir, seed, res):
     return events, exc
 
 
-EXTRA = ("reads_checked", "writer_own_reads", "runs_with_consumer_reads", "runs_with_overlap", "worker_process_events",
+EXTRA = ("wide_runs", "reads_checked", "writer_own_reads", "runs_with_consumer_reads", "runs_with_overlap", "worker_process_events",
          "declined", "store_events")
 GEN_KW = {"allow_zero": False, "weights": {"binary": 16, "multi": 6, "rechunk": 7, "reduce": 12, "concat": 7, "linalg": 5, "combo": 14}}
+
+
+def wide_case(rng):
+    n = rng.randint(1050, 1500)
+    if rng.random() < 0.5:
+        shape, chunks = [n], [1]
+    else:
+        a = rng.randint(33, 45)
+        shape, chunks = [a, n // a + 1], [1, 1]
+    nodes = [{"in": [], "op": "leaf", "p": {"chunks": chunks, "dtype": "int64", "seed": rng.getrandbits(40), "shape": shape, "src": "from_array"}}]
+    for op in rng.sample(["negative", "square", "abs", "positive"], rng.choice([2, 3])):
+        nodes.append({"in": [len(nodes) - 1], "op": op, "p": {}})
+    cfg = {"executor": "threads", "optimize": False, "executor_opts": {"max_workers": rng.choice([8, 16, 32])},
+           "compute_kw": {"compute_arrays_in_parallel": rng.random() < 0.5}}
+    bs = rng.choice([None, None, 1200, 1500])
+    if bs is not None:
+        cfg["compute_kw"]["batch_size"] = bs
+    # most writes immediate, a few slow ones: the tail of an operation is still writing when its tracked part is done
+    delays = (0.0,) * 14 + (0.05, 0.2)
+    return {"nodes": nodes, "outputs": [len(nodes) - 1]}, cfg, delays
 
 
 def run_shard(spec, workdir):
@@ -315,6 +338,38 @@ def run_shard(spec, workdir):
                 _rc.bump(res["hist"]["exceptions"], exc["type"])
         if k < 1 and spec.get("shard", 0) == 0:
             res["samples"].append({"recipe": recipe, "config": cfg})
+    # ---- wide operations: more tasks in flight at once than any bound the scheduler might put on the
+    # set of futures it waits on (each op of these plans has 1050-1500 one-chunk tasks)
+    for k in range(spec.get("wide", 1)):
+        recipe, cfg, delays = wide_case(rng)
+        seed = rng.getrandbits(20)
+        wd = os.path.join(workdir, f"w{k}")
+        r = one_run(recipe, cfg, wd, seed, res, max_tasks=10**5, delays=delays)
+        shutil.rmtree(wd, ignore_errors=True)
+        if r is None:
+            res["counters"]["declined"] += 1
+            continue
+        events, exc = r
+        res["evaluations"] += 1
+        res["counters"]["runs"] += 1
+        res["counters"]["wide_runs"] += 1
+        res["counters"]["store_events"] += len(events)
+        _rc.bump(res["hist"]["config"], f"wide:{cfg['executor']}/batch={cfg.get('compute_kw', {}).get('batch_size')}")
+        facts = {"config": cfg, "latency_seed": seed, "ops": gen.recipe_ops(recipe), "run_exception": exc, "wide": True}
+        viols, overlap, order, consumed = analyse(events, res, facts)
+        for f in ORDER_FINDINGS[:2]:
+            viols.append({"kind": "schedule-order-violates-dependency", "msg": f, "facts": dict(facts)})
+        mxo = max(mxo, overlap)
+        if consumed and exc is None:
+            res["nontrivial"].append(order)
+        res["sets"]["interleavings"].append(order)
+        if exc is not None:
+            _rc.bump(res["hist"]["exceptions"], exc["type"])
+            viols.append({"kind": "wide-run-failed", "msg": f"a plan of elementwise operations over {recipe['nodes'][0]['p']['shape']} one-element chunks raised {exc['type']}: {exc['msg'][:160]}", "facts": dict(facts)})
+        for v in viols[:3]:
+            v["property"] = PROPERTY
+            v["case"] = {"recipe": recipe, "cfg": cfg, "latency_seed": seed, "max_tasks": 10**5, "delays": list(delays)}
+            res["violations"].append(v)
     res["maxes"]["max_overlapping_tasks"] = mxo
     res["counters"]["generation_lists_checked"] = ORDER_STATS["generation_lists_checked"]
     res["counters"]["node_orders_checked"] = ORDER_STATS["node_orders_checked"]
@@ -326,7 +381,8 @@ def replay(rep, workdir):
     case = rep["case"]
     n = 0
     for i in range(6):  # the interleaving is not fully controlled: repeat the run a few times
-        r = one_run(case["recipe"], case["cfg"], os.path.join(workdir, f"replay{i}"), case["latency_seed"] + i, res)
+        r = one_run(case["recipe"], case["cfg"], os.path.join(workdir, f"replay{i}"), case["latency_seed"] + i, res,
+                    max_tasks=case.get("max_tasks", 150), delays=tuple(case["delays"]) if case.get("delays") else None)
         if r is None:
             continue
         events, exc = r
@@ -348,6 +404,7 @@ def finalize(tier, merged):
             ("runs in which >= 2 tasks overlapped in time", c.get("runs_with_overlap", 0), 250 if tier == "quick" else 2500),
             ("distinct interleavings observed", len(merged["sets"].get("interleavings", [])), 300 if tier == "quick" else 3000),
             ("store events observed inside worker processes", c.get("worker_process_events", 0), 100 if tier == "quick" else 3000),
+            ("runs of plans whose operations have > 1000 tasks in flight at once", c.get("wide_runs", 0), 8 if tier == "quick" else 40),
             ("schedules (generation lists + node orders) checked against the DAG's dependencies", c.get("generation_lists_checked", 0) + c.get("node_orders_checked", 0), 500 if tier == "quick" else 5000),
         ],
         "assumptions": ASSUMPTIONS,
